@@ -195,7 +195,7 @@ def check(run, prog, tier):
                    f.file, n.get("l"), f.name, what="%s encodes key/data in the eventfd counter: posts that pile up before the backend reads are merged into one event with a wrong key and data" % f.name)
 
     # ---- C19-d a variable a thread root writes is not also written by another thread once that thread exists
-    run.rule("C19-d", "a non-atomic variable or field written by a thread root (timer thread, worker thread) is written by other threads only before the thread is created (the store precedes pthread_create in the same function) - two unsynchronised writers can overwrite each other's final value", 2)
+    run.rule("C19-d", "a non-atomic variable or field written by a thread root (timer thread, worker thread) is written by other threads only before the thread is created (the store precedes pthread_create in the same function) - two unsynchronised writers can overwrite each other's final value", 1)
     thread_side = {}
     for rname, rfs in roots.items():
         for fname in cg.reachable_from(rfs):
